@@ -198,7 +198,10 @@ func createManagerKeyScope(km db.Bucket, root *hdkeychain.ExtendedKey,
 	}
 
 	// check for repeated seed
-	value, _ := accountIDBucket.Get([]byte(accountID))
+	value, err := accountIDBucket.Get([]byte(accountID))
+	if err != nil {
+		return nil, err
+	}
 	if value != nil {
 		return nil, ErrDuplicateSeed
 	}
